@@ -540,7 +540,15 @@ def unit_bounded_inputs_unchanged(U):
                 fails.append({"case": {"options": opts, "merge_attributes": ma, "feature": k}, "expected": snap[k][4], "observed": now[k][4]})
     U.bounded_result("C15.bounded.inputs_unchanged", "the features handed to interfeatures are unchanged afterwards (every attribute list in its order)", "4 option sets x merge_attributes on/off, 4 features on 2 seqids with unsorted multi-valued attributes", cases, fails)
 
-UNITS = [("bounded.inputs_unchanged", unit_bounded_inputs_unchanged), ("bounded.interleaved", unit_bounded_interleaved), ("bounded.switch", unit_bounded_switch), ("bounded.after_delete", unit_bounded_after_delete), ("body", unit_body), ("introns", unit_introns), ("splice", unit_splice), ("bounded.numeric", unit_bounded_numeric)]
+def unit_dep_order(U):
+    """the ordering contract the intron / splice-site units ASSUME for children(..., order_by='start') - the query builder
+    turns order_by='start' into ORDER BY start ASC whatever was asked before in the same process - is discharged here as
+    well, on the real make_query (same obligations as C11.order, shared)"""
+    from props import C11
+    C11.unit_order(U, prefix="C15.dep", only=("str:start",))
+
+
+UNITS = [("dep.order", unit_dep_order), ("bounded.inputs_unchanged", unit_bounded_inputs_unchanged), ("bounded.interleaved", unit_bounded_interleaved), ("bounded.switch", unit_bounded_switch), ("bounded.after_delete", unit_bounded_after_delete), ("body", unit_body), ("introns", unit_introns), ("splice", unit_splice), ("bounded.numeric", unit_bounded_numeric)]
 try:
     from standins import C15 as _S
     UNITS = UNITS + list(_S.UNITS)
